@@ -196,6 +196,79 @@ def _reordered(rng, stim):
     return out
 
 
+def mat_parts_case(rng, sort, n, kinds, ext_mode='ext'):
+    """multi-participant .mat whose participants each have their OWN `stimuli_<p>` list: the first
+    participant fixes the labels; every further one lists the same stimuli ('same'), the same set in
+    another order ('reorder'), the previous participant's other order ('reorder_prev'), other stimuli
+    ('otherset'), more ('superset') or fewer ('subset').  Each `rdmutv_<p>` is laid out in that
+    participant's own order with pairwise different values; the variables are written in mixed
+    order (the first `stimuli*` variable of the file is the first participant's)."""
+    name, info = make_name(rng, 'C', 'mat')
+    stim = stimuli(rng, n, ext_mode)
+    ps = []
+    while len(ps) < len(kinds) + 1:
+        q = participant(rng)
+        if q not in ps:
+            ps.append(q)
+    lists = [list(stim)]
+    for what in kinds:
+        if what == 'same':
+            st = list(stim)
+        elif what == 'reorder':
+            st = _reordered(rng, stim)
+        elif what == 'reorder_prev':
+            st = list(lists[-1]) if lists[-1] != stim else _reordered(rng, stim)
+        elif what == 'otherset':
+            st = list(stim)
+            for i in rng.sample(range(n), rng.randint(1, n)):
+                st[i] = 'zz' + token(rng, 2, 4) + ('' if ext_mode == 'none' else '.png')
+            if rng.random() < 0.5:
+                rng.shuffle(st)
+        elif what == 'superset':
+            st = list(stim) + ['extra' + token(rng, 1, 3) + ('' if ext_mode == 'none' else '.png')]
+            if rng.random() < 0.5:
+                rng.shuffle(st)
+        elif what == 'subset':
+            st = list(stim)
+            del st[rng.randrange(n)]
+        else:
+            raise ValueError(what)
+        lists.append(st)
+    utvs = [_distinct_utv(rng, len(st)) for st in lists]
+    svars = [['stimuli_' + q.replace('-', '_'), {'strs': st}] for q, st in zip(ps, lists)]
+    uvars = [['rdmutv_' + q.replace('-', '_'), {'nums': [u_]}] for q, u_ in zip(ps, utvs)]
+    rng.shuffle(uvars)
+    cut = rng.randint(0, len(uvars))
+    vars_ = uvars[:cut] + svars + uvars[cut:]
+    rows = [{'participant': q, 'task': info['task_name'], 'task_index': None, 'utv': u_}
+            for q, st, u_ in zip(ps, lists, utvs) if st == stim]
+    return {'kind': 'meadows_load', 'fname': name, 'vars': vars_, 'sort': sort, 'form': 'matN',
+            'ext_mode': ext_mode, 'part_kinds': list(kinds),
+            'expect': {'experiment': info['experiment_name'], 'stimuli': stim, 'rows': rows}}
+
+
+MAT_SKELETON = (
+    (False, 3, ['reorder']),
+    (True, 3, ['reorder']),
+    (True, 4, ['same', 'reorder', 'same']),
+    (False, 3, ['otherset', 'same']),
+    (True, 4, ['superset', 'reorder', 'subset']),
+    (False, 5, ['reorder', 'reorder_prev', 'same']),
+    (True, 2, ['reorder', 'same']),
+    (False, 3, ['same', 'same']),
+)
+
+
+def gen_mat_parts(rng, k):
+    for sort, n, kinds in MAT_SKELETON:
+        yield mat_parts_case(rng, sort, n, kinds)
+    for _ in range(10 * k):
+        kinds = [rng.choice(['same', 'same', 'reorder', 'reorder', 'reorder', 'otherset', 'superset',
+                             'subset', 'reorder_prev']) for _ in range(rng.randint(1, 4))]
+        yield mat_parts_case(rng, rng.random() < 0.5, rng.randint(3, 6), kinds,
+                             ext_mode=rng.choice(['ext', 'ext', 'ext', 'none', 'mixed']))
+
+
 JSON_LATER = ['same', 'reorder', 'otherset', 'superset', 'subset', 'renamed_ext', 'nonma']
 
 
@@ -309,6 +382,8 @@ def gen(rng, tier):
     k = 1 if tier == 'quick' else 25
     # --- multi-task json files with later tasks in another order / over another set (round 5)
     yield from gen_json_tasks(rng, k)
+    # --- multi-participant .mat files whose participants order / choose the stimuli differently (5b)
+    yield from gen_mat_parts(rng, k)
     # --- names
     for _ in range(12 * k):
         for shape in 'ABC':
@@ -517,6 +592,83 @@ def oracle_json(case, out):
     return None
 
 
+def oracle_mat_multi(case, out):
+    """Independent judgement of a loaded multi-participant .mat: the FILE is read back from disk
+    and every participant of the result is judged through ITS OWN `stimuli_<p>` / `rdmutv_<p>`
+    pair: its stimulus set must be the label set and, for every pair of labels, the RDM's value
+    must be the value the file gives that participant for these two stimuli (located through the
+    participant's own order).  Participants with exactly the first list must be loaded, in file
+    order; one with the same stimuli in another order may be skipped or loaded-and-correct; one
+    over other stimuli must not be loaded."""
+    from scipy.io import loadmat
+    path = os.path.join(tmpdir(), case['fname'])
+    data = loadmat(path)
+    svars = [k for k in data.keys() if k.startswith('stimuli')]
+    feats = {'meadows_form': 'matN', 'n_participants': len(svars), 'sort': case['sort']}
+    if not svars:
+        return None
+    if 'exc' in out:
+        return {'what': 'supported Meadows file rejected', 'observed': out, 'expected': 'RDMs',
+                'features': feats}
+    parts = [k.split('_', 1)[1].replace('_', '-') for k in svars]
+    own = {q: [str(x).rstrip(' ').split('.')[0] for x in data[k]] for q, k in zip(parts, svars)}
+    raw = {q: [str(x).rstrip(' ') for x in data[k]] for q, k in zip(parts, svars)}
+    vec = {q: [float(x) for x in data['rdmutv_' + k.split('_', 1)[1]].ravel()] for q, k in zip(parts, svars)}
+    first = parts[0]
+    must = [q for q in parts if raw[q] == raw[first]]
+    may = [q for q in parts if sorted(own[q]) == sorted(own[first]) and len(set(own[q])) == len(own[q])]
+    feats['participant_stimulus_order_differs'] = any(raw[q] != raw[first] for q in may)
+    labels = sorted(own[first]) if case['sort'] else own[first]
+    conds = [c.rstrip(' ') for c in out['conds']]
+    if conds != labels:
+        return {'what': 'stimulus labels differ from the first participant\'s list (or are not sorted '
+                        'on request)', 'observed': out['conds'], 'expected': labels, 'features': feats}
+    got = out['participant']
+    if len(got) != len(out['dissim']) or (out['task'] is not None and len(out['task']) != len(got)):
+        return {'what': 'descriptors and RDMs of the .mat file differ in number',
+                'observed': {'participant': got, 'n_rdms': len(out['dissim'])},
+                'expected': 'one participant and task per RDM', 'features': feats}
+    it = iter(parts)
+    if not all(any(q == x for x in it) for q in got):
+        return {'what': 'participants are not a sub-sequence of the file\'s participants',
+                'observed': got, 'expected': parts, 'features': feats}
+    if [q for q in must if q not in got]:
+        return {'what': 'a participant with exactly the first participant\'s stimulus list was not loaded',
+                'observed': got, 'expected': must, 'features': feats}
+    tname = case['fname'].split('.')[0].split('_')[-2]
+    n = len(labels)
+    for r, q in enumerate(got):
+        if out['task'] is None or out['task'][r] != tname:
+            return {'what': 'task descriptor differs from the file name', 'observed': out['task'],
+                    'expected': tname, 'features': feats}
+        if q not in may:
+            return {'what': 'a participant over other stimuli than the labels was loaded',
+                    'observed': {'participant': q, 'stimuli': raw[q]}, 'expected': 'skipped',
+                    'labels': labels, 'features': feats}
+        o = own[q]
+        file_map, k = {}, 0
+        for i in range(len(o)):
+            for j in range(i + 1, len(o)):
+                file_map[frozenset((o[i], o[j]))] = vec[q][k]
+                k += 1
+        row = out['dissim'][r]
+        if len(row) != n * (n - 1) // 2:
+            return {'what': 'RDM has the wrong number of entries', 'observed': len(row),
+                    'expected': n * (n - 1) // 2, 'features': feats}
+        k = 0
+        for i in range(n):
+            for j in range(i + 1, n):
+                want = file_map[frozenset((labels[i], labels[j]))]
+                if abs(row[k] - want) > 1e-12:
+                    return {'what': 'dissimilarity of a stimulus pair differs from the file\'s value for '
+                                    'that pair of that participant',
+                            'observed': row[k], 'expected': want, 'pair': [labels[i], labels[j]],
+                            'participant': q, 'participant_stimulus_order': o, 'labels': labels,
+                            'features': feats}
+                k += 1
+    return None
+
+
 def oracle(case):
     out = impl(case)
     if case['kind'] == 'meadows_name':
@@ -532,6 +684,10 @@ def oracle(case):
         return None
     if case['form'] == 'json':
         bad = oracle_json(case, out)
+        if bad:
+            return bad
+    if case['form'] == 'matN':
+        bad = oracle_mat_multi(case, out)
         if bad:
             return bad
     feats = {'meadows_form': case['form'], 'n_stimuli': len(exp['stimuli']), 'n_rdms': len(exp['rows'])}
@@ -591,6 +747,35 @@ def oracle(case):
     return None
 
 
+def mat_tags(case):
+    """tags of a multi-participant .mat, computed from its variables"""
+    lists = [v['strs'] for k_, v in case['vars'] if k_.startswith('stimuli')]
+    if len(lists) < 2:
+        return []
+    b, first, seen = [], lists[0], False
+    for prev, st in zip(lists, lists[1:]):
+        if st == first:
+            b.append('mat:participant-same')
+            if seen:
+                b.append('mat:same-after-reordered')
+        elif sorted(st) == sorted(first):
+            seen = True
+            b.append('mat:participant-reordered')
+            b.append('mat:reordered-sort' if case['sort'] else 'mat:reordered-nosort')
+            if len(first) >= 3:
+                b.append('mat:reordered-3plus')
+            if st == prev:
+                b.append('mat:reordered-repeat')
+        elif len(st) != len(first):
+            b.append('mat:participant-other-length')
+        else:
+            b.append('mat:participant-other-set')
+    keys = [k_ for k_, _ in case['vars']]
+    if not keys[0].startswith('stimuli'):
+        b.append('mat:utv-var-first')
+    return sorted(set(b))
+
+
 def json_tags(case):
     """tags of a multi-task json, computed from the tasks themselves (not from the plan)"""
     ma = [(t, x) for t, x in enumerate(case['tasks']) if x['task_type'] == 'multiarrange']
@@ -648,6 +833,8 @@ def feats(case, impl_res):
             b.append('load:two_stimuli')
         if case.get('ext_mode', 'ext') != 'ext':
             b.append('load:noext_json' if case['form'] == 'json' else 'load:noext_mat')
+        if case['form'] == 'matN':
+            b.extend(mat_tags(case))
         if case['form'] == 'json':
             if any(t['task_type'] != 'multiarrange' for t in case['tasks']):
                 b.append('load:json_skip')
@@ -672,4 +859,8 @@ BRANCHES = ['meadows:A', 'meadows:B', 'meadows:C', 'meadows:bad', 'load:mat1', '
             'json:reordered-sort', 'json:reordered-nosort', 'json:reordered-3plus',
             'json:nonma-between', 'json:ma-tasks-2', 'json:ma-tasks-3', 'json:ma-tasks-4',
             'json:reordered-repeat', 'json:bare-no_meta', 'json:bare-no_stimuli', 'json:arg-pathlib',
-            'json:arg-sort-numpy', 'json:arg-sort-int']
+            'json:arg-sort-numpy', 'json:arg-sort-int',
+            # round 5b: participants of a multi-participant .mat with their own stimulus lists
+            'mat:participant-reordered', 'mat:participant-other-set', 'mat:participant-other-length',
+            'mat:participant-same', 'mat:same-after-reordered', 'mat:reordered-sort',
+            'mat:reordered-nosort', 'mat:reordered-3plus', 'mat:reordered-repeat', 'mat:utv-var-first']
